@@ -11,6 +11,92 @@ from .. import absyn, campaign as C
 from ..driver import analysis_check, standard_items
 
 
+def expansions_part(ctx):
+    """Gram-Charlier and Cornish-Fisher: Polar's expansions for a list of rational cumulant vectors (computed one
+    after the other in one process) judged by spec/Dists.tla: the Gram-Charlier density must integrate to 1 and
+    reproduce the first K raw moments (normal moments in exact arithmetic); the Cornish-Fisher polynomial must be
+    the standard expansion, coefficient by coefficient."""
+    import json
+    import os
+    import shutil
+    import subprocess
+    import tempfile
+    from .. import encode as E, pool, tlc
+    from .c08 import q
+    run = ctx["run"]
+    rng = __import__("random").Random(run.seed)
+    vectors = [["1", "4", "2", "3"], ["0", "1", "1/2", "1", "1/3"], ["2", "9/4", "-1", "2", "1"], ["0", "1", "0", "0"],
+               ["-1", "1/4", "1/8", "1/16", "1/32"], ["3", "16", "-4", "8"], ["1/2", "1/9", "1/27", "1/81", "0"], ["0", "4", "1"]]
+    for _ in range(4 if run.tier == "quick" else 40):
+        k = rng.choice([3, 4, 5])
+        sig = rng.choice([F(1), F(2), F(1, 2), F(3, 2), F(3)])
+        vectors.append([str(F(rng.randint(-3, 3), rng.choice([1, 2]))), str(sig * sig)] +
+                       [str(F(rng.randint(-4, 4), rng.choice([1, 2, 3]))) for _ in range(k - 2)])
+    items = [{"vid": f"v{i}", "cumulants": v} for i, v in enumerate(vectors)]
+    res = pool.run_jobs([{"kind": "expansions", "id": "exp", "vectors": items, "timeout": 900}], per_job_timeout=900)["exp"]
+    if "vectors" not in res:
+        run.error(f"expansions job failed: {res}")
+        return {}
+    traces = []
+    exc = 0
+    for it, o in zip(items, res["vectors"]):
+        cum = [F(c) for c in it["cumulants"]]
+        sigma = None
+        for cand in (F(1), F(2), F(1, 2), F(3, 2), F(3), F(4), F(1, 3), F(1, 4)):
+            if cand * cand == cum[1]:
+                sigma = cand
+        if "gc" in o:
+            traces.append({"id": it["vid"] + "-gc", "gc": {"cumulants": [q(c) for c in cum],
+                                                           "poly": [{"c": q(c), "e": e} for c, e in o["gc"]]}})
+        else:
+            exc += 1
+        if "cf" in o and sigma is not None:
+            traces.append({"id": it["vid"] + "-cf", "cf": {"cumulants": [q(c) for c in cum], "sigma": q(sigma),
+                                                           "poly": [{"c": q(c), "e": e} for c, e in o["cf"]]}})
+        elif "cf" not in o:
+            exc += 1
+    verdicts = {}
+    states = distinct = 0
+    work = tempfile.mkdtemp(prefix="verif-exp-")
+    try:
+        batch = os.path.join(work, "batch.json")
+        outdir = os.path.join(work, "out")
+        os.mkdir(outdir)
+        json.dump({"traces": traces}, open(batch, "w"))
+        cfg = os.path.join(work, "d.cfg")
+        open(cfg, "w").write("SPECIFICATION Spec\nINVARIANT TypeOK\nCHECK_DEADLOCK FALSE\n")
+        cmd = ["java", "-XX:+UseParallelGC", "-Xmx6g", "-Xss64m", "-cp", tlc.TLC_CP, "tlc2.TLC", "-workers", "8", "-metadir",
+               os.path.join(work, "meta"), "-noGenerateSpecTE", "-config", cfg, os.path.join(tlc.SPEC_DIR, "Dists.tla")]
+        p = subprocess.run(cmd, cwd=tlc.SPEC_DIR, env=dict(os.environ, BATCH_FILE=batch, OUT_DIR=outdir), capture_output=True,
+                           text=True, timeout=3000)
+        m = tlc._STATS_RE.search(p.stdout)
+        if p.returncode != 0 or not m:
+            run.error("TLC Dists (expansions): " + p.stdout[-2500:])
+        else:
+            states, distinct = int(m.group(1)), int(m.group(2))
+        for t in traces:
+            vf = os.path.join(outdir, t["id"] + ".json")
+            if os.path.exists(vf):
+                verdicts[t["id"]] = json.load(open(vf))
+            elif m:
+                run.error(f"{t['id']}: no verdict")
+    finally:
+        shutil.rmtree(work, ignore_errors=True)
+    bad = 0
+    byv = {it["vid"]: it for it in items}
+    obs = {o["vid"]: o for o in res["vectors"]}
+    for tid, v in verdicts.items():
+        if v["fails"]:
+            bad += 1
+            vid, kind = tid.rsplit("-", 1)
+            run.violation({f"expansion:{kind}:{','.join(byv[vid]['cumulants'])}"},
+                          {"clause": v["fails"][0]["clause"], "cumulants": byv[vid]["cumulants"],
+                           "position_in_process": items.index(byv[vid]), "polar": obs[vid].get(kind),
+                           "failures": json.loads(json.dumps(v["fails"], default=str))})
+    return {"expansion_vectors": len(items), "expansion_traces": len(verdicts), "expansion_failures": bad,
+            "expansion_exceptions": exc, "expansion_states": distinct}
+
+
 def main(tier, seed):
     quick = tier == "quick"
     items = [it for it in C.corpus_files()][:10] + C.generated(seed, 12 if quick else 200, ngoals=2)
@@ -29,8 +115,10 @@ def main(tier, seed):
                   "goals": ["x"], "points": [{}], "stat_goals": ["x"], "K": 4, "origin": "tail bounds: transient above the threshold",
                   "tail_goals": [{"monom": "x", "a": a, "moments": 3} for a in ("1", "2", "3")]})
     return analysis_check("C11", tier, seed, items=items, want=["parsed", "central", "cumulant", "tail"], builders=[C.b_source, C.b_stats, C.b_tail],
-                          N=8 if quick else 10, timeout=120 if quick else 300,
-                          assumptions=["orders k <= 4; tail bounds are read from the action's printed output at every n"])
+                          N=8 if quick else 10, timeout=120 if quick else 300, post=expansions_part,
+                          assumptions=["orders k <= 4; tail bounds are read from the action's printed output at every n",
+                                       "Cornish-Fisher is compared with the standard expansion up to the third bracket (five cumulants), transcribed from the literature into spec/Dists.tla",
+                                       "expansions use cumulant vectors with rational standard deviation"])
 
 
 def replay(path):
